@@ -140,6 +140,112 @@ def classify_nesting(ops, steps):
     return None, None
 
 
+def oracle_intersect(ctx, i, o):
+    """Direct oracle on the final state of one Intersect history (real Get, real flags, real Entries)."""
+    ops = [tuple(x) for x in i["ops"]]
+    if "panic" in o:
+        ctx.violation("intersect-panic", "Insert panicked on valid intervals", {"ops": i["ops"], "observed": o})
+        return
+    fails = []
+    if not sorted_disjoint(o["entries"]):
+        fails.append(("intersect-entries-not-sorted-disjoint", "Entries() is not sorted / pairwise disjoint / non-empty"))
+    for p, g in zip(range(i["lo"], i["hi"] + 1), o["gets"]):
+        if list(g[2]) != naive(ops, p):
+            fails.append(("intersect-get-mismatch", "Get(%d) returned %s, the intervals containing it are %s" % (p, g[2], naive(ops, p))))
+            break
+    for k in range(len(ops)):
+        if o["flags"][k] != flag_want(ops, k):
+            fails.append(("intersect-disjoint-flag-wrong", "Insert #%d returned disjoint=%s" % (k + 1, o["flags"][k])))
+            break
+    if fails:
+        key, step = classify_intersect(ops, o["steps"], i["lo"], i["hi"], o["flags"])
+        if key is None:
+            key = fails[0][0]
+        ctx.violation(key, fails[0][1], {"ops": i["ops"], "first_failing_step": step, "entries": o["entries"],
+                                         "flags": o["flags"], "gets_from": i["lo"], "gets": o["gets"], "all": [f[0] for f in fails]})
+
+
+def oracle_nesting(ctx, i, o):
+    ops = [tuple(x) for x in i["ops"]]
+    bad = nesting_state_ok(ops, o["sets"])
+    if bad is not None:
+        key, step = classify_nesting(ops, o["steps"])
+        if key is None:
+            key = "nesting-" + bad[0]
+        ctx.violation(key, "Nesting.Sets(): " + bad[0], {"ops": i["ops"], "first_failing_step": step, "sets": o["sets"], "detail": bad[1]})
+
+
+def unknown_violations(ctx):
+    known = load_known()
+    return [v for v in ctx.violations if (ID, v[0]) not in known]
+
+
+def escalate(ctx, breaks):
+    """The model and the implementation disagree somewhere but no history violated the property so far:
+    search harder around the disagreeing histories before giving up (direct oracle only, no model).
+    (1) every disagreeing history (shortest first) extended by every sequence of <= 2 (<= 3 on tiny domains) further
+    insertions over its own endpoint range; (2) long random histories made of repeated intervals followed by nested and
+    remainder insertions."""
+    rng = ctx.rng
+    seen, ins = set(), []
+
+    def add(mode, ops, lo=None, hi=None):
+        k = (mode, tuple(ops))
+        if k in seen or any(a > b for a, b in ops):
+            return
+        seen.add(k)
+        if mode == "intersect":
+            ins.append({"mode": mode, "ops": [list(x) for x in ops], "trace": True,
+                        "lo": min(a for a, _ in ops) - 1, "hi": max(b for _, b in ops) + 1})
+        else:
+            ins.append({"mode": mode, "ops": [list(x) for x in ops], "trace": True})
+    todo = sorted(breaks, key=lambda c: len(c["ops"]))[: ctx.budget(250, 1500)]
+    for c in todo:
+        ops = [tuple(x) for x in c["ops"]]
+        if not ops or any(a > b for a, b in ops):
+            continue
+        lo, hi = min(a for a, _ in ops), max(b for _, b in ops)
+        if hi - lo > 5:
+            pts = sorted({p for o in ops for p in (o[0], o[1], o[0] - 1, o[1] + 1)})[:7]
+            ivs = [(a, b) for a in pts for b in pts if a <= b]
+        else:
+            ivs = intervals(lo, hi)
+        for x in ivs:
+            add(c["mode"], ops + [x])
+        for x in ivs:
+            for y in ivs:
+                add(c["mode"], ops + [x, y])
+                if len(ivs) <= 6:
+                    for z in ivs:
+                        add(c["mode"], ops + [x, y, z])
+    for _ in range(ctx.budget(4000, 60000)):
+        w = rng.range(1, 5)
+        ops = [(0, w)] * rng.range(3, 9)
+        for _ in range(rng.range(2, 8)):
+            a = rng.range(0, w)
+            ops.append((a, rng.range(a, w)) if rng.chance(4, 5) else (0, w))
+        add("intersect", ops)
+    for _ in range(ctx.budget(2000, 30000)):
+        span = rng.choice([3, 5, 8])
+        ops = []
+        for _ in range(rng.range(3, 12)):
+            a = rng.range(0, span)
+            ops.append((a, min(span, a + rng.choice([0, 1, 1, 2, 3, span]))))
+        add("nesting", ops)
+    outs = ctx.impl("interval", ins)
+    for i, o in zip(ins, outs):
+        if "crash" in o:
+            continue
+        ctx.count(("esc", i["mode"], tuple(tuple(x) for x in i["ops"])), True, "escalated-" + i["mode"])
+        if i["mode"] == "intersect":
+            oracle_intersect(ctx, i, o)
+        elif "panic" not in o:
+            oracle_nesting(ctx, i, o)
+    ctx.extra["escalated_search"] = {"cases": len(ins), "around_disagreeing_histories": len(todo),
+                                     "found_failing_input": bool(unknown_violations(ctx))}
+    ctx.notes.append("correspondence broke without a property failure in the regular cases: escalated search over %d further histories" % len(ins))
+
+
 # ------------------------------------------------------------------ Coq terms
 def cz(z):
     return "(%d)" % z if z < 0 else "%d" % z
@@ -192,6 +298,16 @@ def run(ctx):
         for k in range(0, n + 1):
             for t in itertools.product(ivs, repeat=k):
                 ncases.append(list(t))
+    # k >= 3 insertions of the same interval (its value slice gets spare capacity), then every sequence of <= 3
+    # insertions of sub-intervals (nested pieces and the remainders around them, in all orders)
+    sub = intervals(0, 2)
+    for k in ctx.budget([3, 5], [3, 4, 5, 6, 7, 9]):
+        for m in range(1, 4):
+            for t in itertools.product(sub, repeat=m):
+                icases.append(([(0, 2)] * k + list(t), -1, 3))
+    for k in ctx.budget([3], [3, 5]):
+        for t in itertools.permutations([(1, 2), (0, 0), (3, 3), (1, 1), (2, 2)], 4):
+            icases.append(([(0, 3)] * k + list(t), -1, 4))
     n_exh_i, n_exh_n = len(icases), len(ncases)
 
     # random longer histories; endpoints from a small domain so that intervals touch and stack up
@@ -215,7 +331,9 @@ def run(ctx):
         ncases.append(rand_ops(rng.choice([5, 8, 12, 24]), span, False))
     ctx.rule = ("Intersect: every insertion sequence of length <= n over all intervals with endpoints 0..hi for (hi,n) in %s, a corpus of "
                 "the repository's own test cases and hand-picked edge cases, and random histories of up to 30 insertions over spans 2..20 "
-                "(widths biased to 0-3 so that entries become adjacent and stack up); every case observes the Insert flags, Entries with "
+                "(widths biased to 0-3 so that entries become adjacent and stack up), and 3 or 5 insertions of [0,2] (resp. [0,3]) followed by "
+                "every sequence of <= 3 (resp. 4 distinct) nested / remainder insertions; when the model and the implementation disagree "
+                "without a property failure, an escalated oracle-only search runs around the disagreeing histories; every case observes the Insert flags, Entries with "
                 "cap(), and Get at every point from below the smallest to above the largest endpoint. Nesting: same construction for %s. "
                 "distinct = distinct (mode, operation sequence); non-trivial = at least two insertions" % (plans, nplans))
 
@@ -237,7 +355,7 @@ def run(ctx):
                 terms.append("CI %s %s true [] [] 0 []" % (cfg, ops_term(ops)))
                 meta.append((i, o))
                 if not bad_op:
-                    ctx.violation("intersect-panic", "Insert panicked on valid intervals", {"ops": i["ops"], "observed": o})
+                    oracle_intersect(ctx, i, o)
                 continue
             ent = lambda e: "(%s, %s, %s, %d%%nat)" % (cz(e[0]), cz(e[1]), coq_nat_list(e[2]), e[3])
             get = lambda e: "(%s, %s, %s)" % (cz(e[0]), cz(e[1]), coq_nat_list(e[2]))
@@ -246,24 +364,7 @@ def run(ctx):
             meta.append((i, o))
             if bad_op:
                 continue
-            # direct oracle on the final state, with the real Get and the real flags
-            fails = []
-            if not sorted_disjoint(o["entries"]):
-                fails.append(("intersect-entries-not-sorted-disjoint", "Entries() is not sorted / pairwise disjoint / non-empty"))
-            for p, g in zip(range(i["lo"], i["hi"] + 1), o["gets"]):
-                if list(g[2]) != naive(ops, p):
-                    fails.append(("intersect-get-mismatch", "Get(%d) returned %s, the intervals containing it are %s" % (p, g[2], naive(ops, p))))
-                    break
-            for k in range(len(ops)):
-                if o["flags"][k] != flag_want(ops, k):
-                    fails.append(("intersect-disjoint-flag-wrong", "Insert #%d returned disjoint=%s" % (k + 1, o["flags"][k])))
-                    break
-            if fails:
-                key, step = classify_intersect(ops, o["steps"], i["lo"], i["hi"], o["flags"])
-                if key is None:
-                    key = fails[0][0]
-                ctx.violation(key, fails[0][1], {"ops": i["ops"], "first_failing_step": step, "entries": o["entries"],
-                                                 "flags": o["flags"], "gets_from": i["lo"], "gets": o["gets"], "all": [f[0] for f in fails]})
+            oracle_intersect(ctx, i, o)
         else:
             ctx.count(("n", tuple(ops)), len(ops) >= 2, "nesting")
             if "panic" in o:
@@ -275,12 +376,7 @@ def run(ctx):
             meta.append((i, o))
             if any(a > b for a, b in ops):
                 continue
-            bad = nesting_state_ok(ops, o["sets"])
-            if bad is not None:
-                key, step = classify_nesting(ops, o["steps"])
-                if key is None:
-                    key = "nesting-" + bad[0]
-                ctx.violation(key, "Nesting.Sets(): " + bad[0], {"ops": i["ops"], "first_failing_step": step, "sets": o["sets"], "detail": bad[1]})
+            oracle_nesting(ctx, i, o)
     ctx.sample({"mode": "intersect", "ops": [list(x) for x in icases[-1][0]]})
     ctx.sample({"mode": "nesting", "ops": [list(x) for x in ncases[-1]]})
     ctx.sample(ins[3])
@@ -294,6 +390,8 @@ def run(ctx):
         o = dict(o)
         o.pop("steps", None)
         ctx.corr_break("interval:" + i["mode"], {"mode": i["mode"], "ops": i["ops"]}, {"observed": o, "model_cfg": CFG})
+    if mism and not unknown_violations(ctx):
+        escalate(ctx, [meta[k][0] for k in mism])
     ctx.exhaustive = True
     ctx.extra["exhaustive_part"] = "Intersect: all sequences for (max endpoint, max length) in %s; Nesting: %s" % (plans, nplans)
     ctx.extra["model_cfg"] = CFG
